@@ -9,6 +9,7 @@ import (
 	"verif/harness"
 	"verif/peer"
 	"verif/ref"
+	"verif/vsched"
 )
 
 // C13 — server work and memory per connection stay within the configured limits.
@@ -179,7 +180,12 @@ func (x *c13Run) check() (rule, shape, detail string) {
 	if !x.dead && x.blockBytes > x.maxHdr+16384+4096 {
 		return "header-bytes-buffered-above-limit", "unfinished-field", fmt.Sprintf("%d bytes of one unfinished header field were accepted in CONTINUATION frames with MaxHeaderListSize=%d and no error was raised: they can only be sitting in a buffer", x.blockBytes, x.maxHdr)
 	}
+	// Gets - Puts per pool; when the execution is one that follows objects with finalizers (a re-run of
+	// a suspicious one), only what the server can still reach: an object left to the collector is not state
 	g := harness.Gauge()
+	if vsched.TrackLive {
+		g = harness.GaugeReachable()
+	}
 	if n := g["*http2.Stream"]; n > x.limit+2 {
 		return "state-above-limit", "Stream objects", fmt.Sprintf("connection holds %d Stream objects with MaxConcurrentStreams=%d (gauges %v)", n, x.limit, g)
 	}
@@ -201,6 +207,23 @@ func (x *c13Run) check() (rule, shape, detail string) {
 // c13Exec runs path (pumped: the whole path is repeated pump times while the
 // connection lives), checking the invariants after every move.
 func c13Exec(path []int, pump int) (menu int, v *fw.Violation, x *c13Run, gauge map[string]int) {
+	menu, v, x, gauge = c13ExecG(path, pump, false)
+	if v != nil && v.Rule == "state-above-limit" {
+		// suspicious by the cheap count: decide on the same (deterministic) execution with reachability
+		x.h.Close()
+		return c13ExecG(path, pump, true)
+	}
+	return
+}
+
+// c13ExecG: with reach, the gauges returned count only objects still reachable after a settled collection.
+func c13ExecG(path []int, pump int, reach bool) (menu int, v *fw.Violation, x *c13Run, gauge map[string]int) {
+	gaugeFn := harness.Gauge
+	if reach {
+		gaugeFn = harness.GaugeReachable
+	}
+	vsched.TrackLive = reach
+	defer func() { vsched.TrackLive = false }()
 	x = newC13()
 	mk := func(rule, shape, detail string) *fw.Violation {
 		tr := x.trace
@@ -228,9 +251,9 @@ func c13Exec(path []int, pump int) (menu int, v *fw.Violation, x *c13Run, gauge 
 		}
 	}
 	if x.dead {
-		return 0, nil, x, harness.Gauge()
+		return 0, nil, x, gaugeFn()
 	}
-	return len(x.menu()), nil, x, harness.Gauge()
+	return len(x.menu()), nil, x, gaugeFn()
 }
 
 func runC13(c *fw.Ctx) {
@@ -284,6 +307,18 @@ func runC13(c *fw.Ctx) {
 				}
 			}
 			if len(gauges) == 2 {
+				grows := false
+				for _, k := range []string{"*http2.Stream", "*fasthttp.RequestCtx", "*http2.FrameHeader", "*http2.HeaderField"} {
+					grows = grows || gauges[1][k] > gauges[0][k]
+				}
+				if grows {
+					// Gets - Puts grows with the repetitions: measure what is still reachable instead
+					for i, pump := range []int{8, 32} {
+						_, _, px, g := c13ExecG(path, pump, true)
+						px.h.Close()
+						gauges[i] = g
+					}
+				}
 				for _, k := range []string{"*http2.Stream", "*fasthttp.RequestCtx", "*http2.FrameHeader", "*http2.HeaderField"} {
 					if gauges[1][k] > gauges[0][k] {
 						c.Violate(fw.Violation{Rule: "state-grows-with-frames", Shape: k, Detail: fmt.Sprintf("repeating the sequence %v 8 times leaves %d %s objects held, 32 times leaves %d: per-connection state grows with the number of frames sent", moves, gauges[0][k], k, gauges[1][k]),
@@ -314,7 +349,9 @@ func replayC13(raw json.RawMessage) (string, bool) {
 		return v.Rule + " [" + v.Shape + "]: " + v.Detail, true
 	}
 	if r.Case.Pump > 8 {
-		_, _, x8, g8 := c13Exec(r.Case.Path, 8)
+		x.h.Close()
+		_, _, x, g = c13ExecG(r.Case.Path, r.Case.Pump, true)
+		_, _, x8, g8 := c13ExecG(r.Case.Path, 8, true)
 		x8.h.Close()
 		for k, n := range g {
 			if n > g8[k] && strings.HasPrefix(k, "*") {
